@@ -2,6 +2,7 @@ import AslModel.Rc
 import AslProofs.Rc
 import AslProofs.RcMutex
 import Gen.ShapesGen
+import AslProofs.RcCompile3
 /-!
 # C12 — Shared handles and atomic counters are correct under every thread interleaving
 
@@ -11,7 +12,7 @@ operation shapes *recorded from the instrumented library on every run* (`Gen/Sha
 The theorems quantify over **any number of threads, any finite programs and every schedule**.
 -/
 namespace C12
-open AslModel.Rc AslProofs.Rc Gen.Shapes
+open AslModel.Rc AslProofs.Rc Gen.Shapes AslModel.RcCompile AslProofs.RcCompile
 
 /-! ## G obligations: what the current source does at its atomic points -/
 
@@ -29,13 +30,6 @@ def toSteps (k : Kind) (evs : List Ev) : List Step :=
     | Ev.inc r c => some (Step.inc (r * k.counters + c))
     | Ev.dec r c => some (Step.dec (r * k.counters + c))
     | _ => none
-
-/-- thread-local simulation of the handles a thread owns -/
-def simHeld : List Nat → List Step → List Nat
-  | h, [] => h
-  | h, Step.inc o :: rest => simHeld (o :: h) rest
-  | h, Step.dec o :: rest => simHeld (h.erase o) rest
-  | h, _ :: rest => simHeld h rest
 
 def handleOf (k : Kind) (role : Nat) : List Nat := (List.range k.counters).map (role * k.counters + ·)
 
@@ -120,38 +114,64 @@ theorem destroyed_exactly_once (nobj : Nat) (thrs : List Thr) (ctr : List Int) (
   obtain ⟨hI, _⟩ := rc_protocol_safe nobj thrs ctr nmtx vars hp hin hpos hwf s
   have hlen : c.rc.length = nobj := by
     have h1 := hI.len1
-    have : ∀ (s : List Nat) (c0 : Cfg), (run c0 s).alive.length = c0.alive.length := by
-      intro s
-      induction s with
-      | nil => intro c0; rfl
-      | cons t s ih =>
-        intro c0
-        unfold run
-        by_cases he : enabled c0 t = true
-        · simp only [he, if_true]
-          rw [ih]
-          unfold step
-          split
-          · rfl
-          · split
-            · rfl
-            · split
-              · split <;> simp
-              · split
-                · rfl
-                · split <;> (try split) <;> rfl
-                · split <;> (try split) <;> rfl
-                · rfl
-                · split <;> rfl
-                · rfl
-                · rfl
-                · rfl
-        · simp only [he]; exact ih c0
+    have := run_alive_length
     have h2 := this s (mkCfg nobj thrs ctr nmtx vars)
     simp only [mkCfg, List.length_replicate] at h2
     show (run (mkCfg nobj thrs ctr nmtx vars) s).rc.length = nobj
     rw [← h1]; exact h2
   exact final_state c hI hd o (by rw [hlen]; exact ho)
+
+/-! ## every scenario the driver runs meets the hypotheses (no run-time side condition left) -/
+
+/-- the recorded shapes, instantiated on the logical objects 0 and 1 in every way the compiler uses them -/
+theorem shapes_compile_ok : ∀ k ∈ kinds, checkShapes k = true := by decide
+
+
+/-- **compiled_programs_wf.**  For every recorded handle type and EVERY list of handle operations (copy / drop /
+    assign in any order and number), the program `compileOps` builds from the recorded shapes is well formed
+    for a thread that starts with one handle to each object: the hypothesis `wfThr` of `rc_protocol_safe`. -/
+theorem compiled_programs_wf (k : Kind) (hk : k ∈ kinds) (ops : List String) : wfThr (scenThr k ops) = true := by
+  unfold wfThr scenThr
+  exact compile_wf k (shapes_compile_ok k hk) ops [0, 1] (heldOf k [0, 1]) (by intro o ho; simp at ho; omega) (List.Perm.refl _)
+
+/-- **scenario_safe.**  Hence for every handle type recorded from the library, any number (≥ 1) of threads, any
+    operation lists and every schedule: the invariant holds and nothing touches released storage. -/
+theorem scenario_safe (k : Kind) (hk : k ∈ kinds) (hc : 0 < k.counters) (progs : List (List String)) (hne : progs ≠ [])
+    (s : List Nat) :
+    let c := run (scenCfg k progs) s
+    RcInv c ∧ c.bad = none := by
+  intro c
+  show RcInv (run (mkCfg (2 * k.counters) (progs.map (scenThr k)) [0] 1 [0]) s) ∧ (run (mkCfg (2 * k.counters) (progs.map (scenThr k)) [0] 1 [0]) s).bad = none
+  have hmem : ∀ th ∈ progs.map (scenThr k), ∃ ops, th = scenThr k ops := by
+    intro th h; obtain ⟨ops, _, rfl⟩ := List.mem_map.mp h; exact ⟨ops, rfl⟩
+  have hheld : ∀ o, o < 2 * k.counters → 0 < (heldOf k [0, 1]).count o := by
+    intro o ho
+    unfold heldOf objHandles oid
+    simp only [List.flatMap_cons, List.flatMap_nil, List.append_nil, List.count_append, Nat.zero_mul, Nat.zero_add, Nat.one_mul]
+    by_cases h : o < k.counters
+    · have : 0 < List.count o (List.map (fun x => x) (List.range k.counters)) := by
+        simp [List.count_pos_iff, h]
+      omega
+    · have : 0 < List.count o (List.map (fun x => k.counters + x) (List.range k.counters)) := by
+        rw [List.count_pos_iff]
+        exact List.mem_map.mpr ⟨o - k.counters, by simp; omega, by omega⟩
+      omega
+  refine rc_protocol_safe (2 * k.counters) (progs.map (scenThr k)) [0] 1 [0] ?_ ?_ ?_ ?_ s
+  · intro th h; obtain ⟨ops, rfl⟩ := hmem th h; rfl
+  · intro th h o ho
+    obtain ⟨ops, rfl⟩ := hmem th h
+    simp only [scenThr, heldOf, objHandles, oid, List.flatMap_cons, List.flatMap_nil, List.append_nil,
+      List.mem_append, List.mem_map, List.mem_range] at ho
+    rcases ho with ⟨x, hx, rfl⟩ | ⟨x, hx, rfl⟩ <;> omega
+  · intro o ho
+    cases progs with
+    | nil => exact absurd rfl hne
+    | cons p ps =>
+      simp only [List.map_cons, heldCount, List.sum_cons]
+      have := hheld o ho
+      simp only [scenThr]
+      omega
+  · intro th h; obtain ⟨ops, rfl⟩ := hmem th h; exact compiled_programs_wf k hk ops
 
 /-! ## atomic counters never lose an update -/
 
@@ -163,6 +183,15 @@ theorem atomiccount_sum (c : Cfg) (k : Nat) (hk : k < c.ctr.length) (s : List Na
   have h := ctr_run s c k hk
   rw [remaining_zero_of_done _ hd] at h
   omega
+
+/-- **atomic_ops_locked.**  Every operator of `Atomic<T>` (assignment, read, conversions, comparisons, unary minus,
+    pre/post increment and decrement, `+= -= *= /=`), run once on the instrumented library, takes the variable's
+    own mutex exactly once around its access and computes the value C++ gives; the list of operators is complete
+    (an operator dropped from the recording, or one that lost its `Lock`, breaks this obligation). -/
+theorem atomic_ops_locked :
+    atomicOps.map (·.name) = ["assign", "read", "conv", "not", "bool", "eq", "ne", "lt", "le", "gt", "ge", "neg",
+      "preinc", "postinc", "predec", "postdec", "add", "sub", "mul", "div"] ∧
+    ∀ op ∈ atomicOps, op.evs = [MEv.lock, MEv.unlock] ∧ op.value = op.expected := by decide
 
 /-- the hypothesis is not vacuous: with a read-then-write increment (what `atomicInc` is under
     `ASL_THREAD_UNSAFE`) two threads each adding 1 can end with 1 -/
